@@ -224,7 +224,8 @@ pub fn main(a: Args) -> i32 {
                 }
             }
         }
-        let jobs = *r.pick(&[1usize, 2, 4, 16]);
+        // `any positive job count`: also counts beyond 32 bits (people write a huge number to mean `unlimited`)
+        let jobs = *r.pick(&[1usize, 2, 4, 16, 3, 1 << 32, (1 << 32) + 2]);
         let mut dir = r.below(3); // 0 local, 1 push, 2 pull
         if a.replay.is_none() && (it == 3 || it == 4) {
             // directed: --delete of many stale files with long names (quoted, the whole list is far beyond the 128 KiB
